@@ -160,6 +160,22 @@ def _check(prog, rep):
                 mism = True
         r5.check(mism, "narrow-at-mismatch", "narrowing happens at the first char that differs from the current indent", "x != y on the path",
                  "the subsequent indent is narrowed on a path without a failed x == y comparison", site=site)
+    # the comparison of the prefix with the current indent stops at the first mismatch: the inner scan only
+    # continues past a pair of equal chars (otherwise a later mismatch would re-grow the indent from a stale iterator)
+    n_inner = 0
+    for inner in lms:
+        if inner is not scan and inner.blocks < scan.blocks:
+            n_inner += 1
+            for tr in loop_system(prog, body, inner, [], []):
+                if tr.kind != "back":
+                    continue
+                good = any(a[0] == "cmp" and a[1] == "Eq" and pol for a, pol in tr.facts)
+                r5.check(good, "scan-continues", "the prefix comparison continues only past equal chars", "back edge condition: x == y",
+                         "the comparison of a line's prefix with the current subsequent indent continues after a mismatch: a later "
+                         "mismatch re-assigns the indent from the stale iterator and it is no longer a common prefix",
+                         site=site_of_block(body, inner.header))
+    r5.check(n_inner == 1, "one-inner-scan", "one prefix comparison loop inside the scan", str(n_inner),
+             "expected one char comparison loop inside the scan loop, found %d" % n_inner, nontrivial=False)
     r1.check(cases == {0, 1, 2}, "line-cases", "lines 0, 1 and later are distinguished", str(cases),
              "the scan does not distinguish line 0, line 1 and later lines (%s)" % sorted(cases), nontrivial=False)
 
